@@ -58,7 +58,7 @@ SelectCommit == (parentCancelled /\ mainPc = "loop") => mainPc' = "returned"
 
 GNext == \/ \E i \in Inst : \E o \in {"ok", "err", "term"} :
               PostOK(i, o) /\ Env([a |-> "finish", i |-> i, o |-> o], Finish(i, o))
-         \/ Env([a |-> "tick"], HedgeTick)
+         \/ Env([a |-> "adv"], Advance)
          \/ GenCancel /\ Env([a |-> "cancel"], ParentCancel)
          \/ ~Quiet /\ IntNext /\ SelectCommit /\ UNCHANGED <<hist, pend0>>
 
@@ -67,7 +67,7 @@ ZOrder == IF cfg.mode = "zone" /\ cfg.minimize
           ELSE <<>>
 
 Behaviour == [cfg |-> [n |-> cfg.n, zone |-> cfg.zone, nz |-> cfg.nz, mode |-> cfg.mode, tol |-> cfg.tol,
-                       minimize |-> cfg.minimize, hedge |-> cfg.hedge, terminal |-> cfg.terminal,
+                       minimize |-> cfg.minimize, hedge |-> cfg.hedge, pred |-> cfg.pred,
                        nocancel |-> cfg.nocancel, zorder |-> ZOrder, pseed |-> 0],
               steps |-> Append(hist, Obs(TRUE))]
 
